@@ -53,6 +53,21 @@ def drive(ctx):
                 if rev:
                     a, b = b, a
                 ctx.emit("iv_comp", {"entry": ("sub", "Interval")[n % 2]}, [a, b])
+    # close pairs: every borrow level alone (the end differs from the start by under a second, a minute, an hour,
+    # a day ...), both orders - the order test of the helpers must look at every field down to the microsecond
+    bases = [[2020, 1, 1, 0, 0, 0, 0], [2019, 12, 31, 23, 59, 59, 700000], [2024, 2, 29, 12, 30, 30, 500000],
+             [2023, 3, 31, 23, 59, 59, 999999], [1999, 12, 31, 0, 0, 0, 1], [2021, 7, 15, 8, 0, 59, 999999]]
+    deltas = [1, 300000, 999999, 10 ** 6, 10 ** 6 + 1, 59999999, 60 * 10 ** 6, 3599999999, 3600 * 10 ** 6,
+              86399999999, 86400 * 10 ** 6, 86400 * 10 ** 6 + 1, 31 * 86400 * 10 ** 6 - 1]
+    for w0 in ctx.mine(bases):
+        t0 = _dt.datetime(*w0)
+        for dl in deltas:
+            t1 = t0 + _dt.timedelta(microseconds=dl)
+            w1 = [t1.year, t1.month, t1.day, t1.hour, t1.minute, t1.second, t1.microsecond]
+            for zr in (UTCZ, NAIVE, {"n": "", "fo": 19800}, {"n": "Europe/Paris", "fo": 0}):
+                for (x, y) in ((w0, w1), (w1, w0)):
+                    n += 1
+                    ctx.emit("iv_comp", {"entry": ("sub", "Interval")[n % 2]}, [mk_dt(zr, x, 0), mk_dt(zr, y, 0)])
     # zone pairs around transitions
     names = real_zone_names(ctx)
     full = ctx.backend == "rs" or not q
@@ -78,7 +93,7 @@ def drive(ctx):
     # random pairs
     for k in range(300 if q else 5000):
         s1 = rnd.randrange(LO, HI)
-        s2 = s1 + rnd.choice((1, -1)) * rnd.choice((rnd.randrange(86400 * 70), rnd.randrange(86400 * 800),
+        s2 = s1 + rnd.choice((1, -1)) * rnd.choice((0, rnd.randrange(3), rnd.randrange(86400 * 70), rnd.randrange(86400 * 800),
                                                     rnd.randrange(86400 * 365 * 300)))
         if not LO < s2 < HI:
             continue
